@@ -38,7 +38,7 @@ fn front_end_panic(text: &str) -> Option<String> {
 }
 
 /// (property, key, observation) — observation returns the signature if the finding still reproduces.
-pub const WITNESSES: [W; 14] = [
+pub const WITNESSES: [W; 16] = [
     ("C01", "c01-cross-module-instantiation", || {
         let src = two("use \"a.oal\";\nres / on get -> f <>;\n", ("a.oal", "let f x = { 'p x };\n"));
         match pipeline::run(&src, None) {
@@ -56,6 +56,14 @@ pub const WITNESSES: [W; 14] = [
             _ => None,
         }
     }),
+    ("C01", "c01-recursion-placeholder-as-uri", || {
+        let src = Sources::single("let @u = /a?{ 'b v };\nlet v = [ { 'l (@u on get -> <>) } ];\nres @u on get -> <>;\n");
+        match pipeline::run(&src, None) {
+            Outcome::Panic { stage, accepted: true, info } => Some(format!("C01 panic in {stage}: {}", info.signature())),
+            _ => None,
+        }
+    }),
+    ("C04", "c01-recursion-placeholder-as-uri", || front_end_panic("let @u = /a?{ 'b v };\nlet v = [ { 'l (@u on get -> <>) } ];\nres @u on get -> <>;\n")),
     ("C01", "c01-sum-of-uris-as-uri", || {
         match pipeline::run(&Sources::single("res concat (/a | /b) /c;\n"), None) {
             Outcome::Panic { stage, accepted: true, info } => Some(format!("C01 panic in {stage}: {}", info.signature())),
